@@ -265,6 +265,11 @@ class Repo:
             except SyntaxError as e:
                 self.errors.append('%s: %s' % (rel, e))
         self._fi = {}
+        if os.environ.get('SA_NO_CANON') != '1':
+            from .canon import normalise_signatures
+            sg = normalise_signatures(self)
+            if sg:
+                self.signatures = sg
         self.publish_method_names()
 
     # -- lookup -----------------------------------------------------------------------------
